@@ -46,6 +46,10 @@ def cfg_sd(run):
   return run.pick([4, 3, 2], [4, 4, 3])
 
 
+def cfg_sd3(run):
+  return [3, 2, 3]
+
+
 # ---------------------------------------------------------------- model
 class Model(object):
   """key -> value map with, per value, its keys in order of most recent
@@ -545,11 +549,20 @@ def main(run):
                          "bfs_depth_to_closure": st["depth"], "closed": st["closed"],
                          "levels": st["levels"], "constructor_initial_states": len(inits) - 1}
   total_states += st["states"]; total_trans += k["extra"]["transitions"]
-  deepest = max(st["seen"].values(), key=lambda h: len(h[1]))
+  mkd_trans = k["extra"]["transitions"]
+  deepest = max(st["seen"].values(), key=lambda h: len(h[1]), default=[None, []])
   samples.append({"object": "MultiKeyDict", "history": deepest[1]})
   if not st["closed"]:
     run.caps.append("MultiKeyDict search not closed")
 
+  # a small universe with key tuples of length 3 (non-adjacent repeated keys such as (a, b, a))
+  cfg3 = [3, 2, 3]
+  st3 = histories.bfs(run, "mkd", [(cfg3, [])])
+  k3 = run.per_kind["mkd"]
+  print("  mkd (3 keys, 2 values, tuples <= 3): %d states, depth %d, closed=%s" % (st3["states"], st3["depth"], st3["closed"]))
+  cov["MultiKeyDict-tuples3"] = {"universe": {"keys": 3, "values": 2, "max_tuple": 3}, "states": st3["states"],
+                                 "bfs_depth_to_closure": st3["depth"], "closed": st3["closed"]}
+  total_states += st3["states"]; total_trans += k3["extra"]["transitions"] - mkd_trans
   cfg = cfg_sd(run)
   st = histories.bfs(run, "sd", [(cfg, [])])
   k = run.per_kind["sd"]
@@ -562,8 +575,14 @@ def main(run):
                          "bfs_depth_to_closure": st["depth"], "closed": st["closed"],
                          "levels": st["levels"]}
   total_states += st["states"]; total_trans += k["extra"]["transitions"]
-  deepest = max(st["seen"].values(), key=lambda h: len(h[1]))
+  deepest = max(st["seen"].values(), key=lambda h: len(h[1]), default=[None, []])
   samples.append({"object": "StrategyDict", "history": deepest[1]})
+  st3s = histories.bfs(run, "sd", [(cfg_sd3(run), [])])
+  print("  sd  (3 names, 2 strategies, tuples <= 3): %d states, depth %d, closed=%s" % (st3s["states"], st3s["depth"], st3s["closed"]))
+  cov["StrategyDict-tuples3"] = {"universe": {"names": 3, "strategies": 2, "max_tuple": 3}, "states": st3s["states"],
+                                 "bfs_depth_to_closure": st3s["depth"], "closed": st3s["closed"]}
+  total_states += st3s["states"]
+  total_trans = run.per_kind["mkd"]["extra"]["transitions"] + run.per_kind["sd"]["extra"]["transitions"]
   if not st["closed"]:
     run.caps.append("StrategyDict search not closed")
   run.coverage.update({
